@@ -426,4 +426,65 @@ theorem tailFin_bytes (x : Nat) (hx : x < B) (h : allB (· ≤ 24) 8 x) : tailFi
     fold_b _ _ _ _ _ _ _ _ (by omega) (by omega) (by omega) (by omega) (by omega) (by omega) (by omega) (by omega),
     fold_d _ _ _ _ _ _ _ _ (by omega) (by omega) (by omega) (by omega) (by omega) (by omega) (by omega) (by omega)]
   omega
+
+/-! ## the tail loop as a whole -/
+
+theorem allB_mono (p q : Nat → Prop) (H : ∀ b, p b → q b) : ∀ k x, allB p k x → allB q k x
+  | 0, _, _ => trivial
+  | k + 1, _, h => ⟨H _ h.1, allB_mono p q H k _ h.2⟩
+
+theorem B_pos : 0 < B := Nat.two_pow_pos 64
+
+theorem psum_nil : Bits.mpn_popcount [] = 0 := rfl
+theorem psum_cons (u : Nat) (us : List Nat) : Bits.mpn_popcount (u :: us) = Bits.popc u + Bits.mpn_popcount us := by
+  simp only [Bits.mpn_popcount, List.map_cons, List.sum_cons]
+
+theorem tailLoop_nil (x : Nat) : tailLoop [] x = x := by rw [tailLoop.eq_def]
+theorem tailLoop_cons (u : Nat) (us : List Nat) (x : Nat) : tailLoop (u :: us) x = tailLoop us ((x + tailLimb u) % B) := by rw [tailLoop.eq_def]
+
+/-- one pass of popcount.c:96-102: x += p0 keeps the byte fields separate -/
+theorem tail_step (u x c : Nat) (hu : u < B) (h : allB (· ≤ c) 8 x) (hc : c + 8 < 256) :
+    allB (· ≤ c + 8) 8 ((x + tailLimb u) % B) ∧
+      sumB (fun b => b) 8 ((x + tailLimb u) % B) = sumB (fun b => b) 8 x + Bits.popc u := by
+  have ht : allB (· ≤ 8) 8 (tailLimb u) := by
+    rw [tailLimb_bytes u hu]
+    exact allB_mapB pc8 (· ≤ 8) (fun b hb => ⟨by have := pc8_le b hb; omega, pc8_le b hb⟩) 8 u
+  have hs : sumB (fun b => b) 8 (tailLimb u) = Bits.popc u := by
+    rw [tailLimb_bytes u hu, sumB_comp pc8 _ (fun b hb => by have := pc8_le b hb; omega), popc_bytes]
+  have A := allB_add c 8 hc 8 x (tailLimb u) h ht
+  refine ⟨by rw [B_256]; exact allB_mod _ 8 _ A.1, ?_⟩
+  rw [B_256, sumB_mod, A.2, hs]
+
+theorem tailLoop_inv : ∀ (us : List Nat) (x c : Nat), (∀ u ∈ us, u < B) → x < B → allB (· ≤ c) 8 x →
+    c + 8 * us.length < 256 →
+    tailLoop us x < B ∧ allB (· ≤ c + 8 * us.length) 8 (tailLoop us x) ∧
+      sumB (fun b => b) 8 (tailLoop us x) = sumB (fun b => b) 8 x + Bits.mpn_popcount us
+  | [], x, c, _, hx, h, _ => by
+    rw [tailLoop_nil, psum_nil, List.length_nil, Nat.mul_zero, Nat.add_zero, Nat.add_zero]
+    exact ⟨hx, h, rfl⟩
+  | u :: us, x, c, hl, hx, h, hc => by
+    have hu : u < B := hl u (List.mem_cons_self ..)
+    have hl' : ∀ v ∈ us, v < B := fun v hv => hl v (List.mem_cons_of_mem _ hv)
+    rw [List.length_cons] at hc
+    have S := tail_step u x c hu h (by omega)
+    have ih := tailLoop_inv us ((x + tailLimb u) % B) (c + 8) hl' (Nat.mod_lt _ B_pos) S.1 (by omega)
+    have e : c + 8 + 8 * us.length = c + 8 * (us.length + 1) := by omega
+    rw [tailLoop_cons, psum_cons, List.length_cons, ← e]
+    refine ⟨ih.1, ih.2.1, ?_⟩
+    rw [ih.2.2, S.2]; omega
+
+theorem allB_zero : ∀ k, allB (· ≤ 0) k 0
+  | 0 => trivial
+  | k + 1 => ⟨Nat.le_refl _, allB_zero k⟩
+theorem sumB_zero : ∀ k, sumB (fun b => b) k 0 = 0
+  | 0 => rfl
+  | k + 1 => by rw [sumB, sumB_zero k]
+
+/-- popcount.c:93-114 for at most 3 remaining limbs: the tail adds exactly their bit count. -/
+theorem tail_popc (us : List Nat) (hl : ∀ u ∈ us, u < B) (hn : us.length ≤ 3) :
+    tailFin (tailLoop us 0) = Bits.mpn_popcount us := by
+  have I := tailLoop_inv us 0 0 hl B_pos (allB_zero 8) (by omega)
+  have h24 : allB (· ≤ 24) 8 (tailLoop us 0) :=
+    allB_mono _ _ (fun b (hb : b ≤ 0 + 8 * us.length) => (by omega : b ≤ 24)) 8 _ I.2.1
+  rw [tailFin_bytes _ I.1 h24, I.2.2, sumB_zero, Nat.zero_add]
 end Mpir.Swar
